@@ -255,6 +255,13 @@ class Translator:
                         out.append(self._p(v1, qden) == self._p(v2, pnum))
                     else:
                         out.append(self._p(v1, qden) * self._p(v2, -pnum) == 1)
+        # exp and log are mutually inverse: exp(t) with t == log(y) is y; log(z) with z == exp(t) is t
+        ll = self.atoms.get("log", [])
+        if len(el) * len(ll) <= 64:
+            for (ve, pe, qe, ae) in el:
+                for (vl, pl, ql, al) in ll:
+                    out.append(z3.Implies(pe == vl * qe, ve * ql == pl))
+                    out.append(z3.Implies(pl == ve * ql, vl * qe == pe))
         # tanh(t) and exp(2t):  tanh * (E + 1) == E - 1
         exps = {a.id: v for (v, p, q, a) in self.atoms.get("exp", [])}
         for (v, p, q, a) in self.atoms.get("tanh", []):
